@@ -383,6 +383,8 @@ class P:
             return ("chr", b[0])
         if t[0] == '"':
             return ("str", lit_bytes(t[1:-1], self.fn))
+        if t in ("true", "false"):
+            return ("bool", t)
         if t == "String" and self.peek() == "::":
             self.eat()
             m = self.eat()
@@ -409,7 +411,7 @@ def rename(stmts, scopes, used, fn):
         k = e[0]
         if k == "var":
             return ("var", look(e[1]))
-        if k in ("num", "chr", "str"):
+        if k in ("num", "chr", "str", "bool"):
             return e
         if k in ("not", "deref"):
             return (k, rx(e[1]))
@@ -509,6 +511,8 @@ class Types:
             return "C"
         if k == "str":
             return "L"
+        if k == "bool":
+            return "B"
         if k == "var":
             if e[1] not in self.ty:
                 self.fail(f"unknown variable {e[1]}")
@@ -843,6 +847,8 @@ class Gen:
             return f"({e[1]} : Int)", None
         if k == "chr":
             return f"({e[1]} : Nat)", None
+        if k == "bool":
+            return e[1], None
         if k == "var":
             t = T.etype(e)
             if t in ("S", "I", "U", "B"):
@@ -1074,13 +1080,13 @@ class Gen:
 
 
 FUNCS = [
-    # name, return regex, return type
-    ("getDirectoryName", r"String", "S"),
-    ("getBaseName", r"String", "S"),
-    ("getStem", r"String", "S"),
-    ("getExtension", r"String", "S"),
-    ("isAbsolutePath", r"bool", "B"),
-    ("simplifyPath", r"String", "S"),
+    # name, return regex, return type, must translate (else: a refusal is recorded and the model function stands in)
+    ("getDirectoryName", r"String", "S", True),
+    ("getBaseName", r"String", "S", True),
+    ("getStem", r"String", "S", True),
+    ("getExtension", r"String", "S", True),
+    ("isAbsolutePath", r"bool", "B", True),
+    ("simplifyPath", r"String", "S", False),
 ]
 LEAN_TY = {"S": "Bytes", "I": "Int", "U": "Int", "B": "Bool"}
 
@@ -1147,8 +1153,20 @@ def generate(repo, out_path=OUT):
     parts = ["/- generated by tools/gen_path.py from src/File.cpp - do not edit -/", "import Nstd.Path.Cxx", "",
              "set_option linter.unusedVariables false", "", "namespace Nstd.Generated.PathScan", "open Nstd.Path", "open Nstd.Path.Cxx", ""]
     known, summary = {}, []
-    for name, ret_rx, ret in FUNCS:
-        lines, npar, s = translate_function(src, name, ret_rx, ret, known)
+    for name, ret_rx, ret, must in FUNCS:
+        try:
+            lines, npar, s = translate_function(src, name, ret_rx, ret, known)
+        except Refuse as e:
+            if must:
+                raise
+            # no theorem depends on the structure of this body: the model function stands in, the refusal is reported
+            lines = [f"/-! ### File::{name}: NOT translated ({str(e).replace('-/', '- /')}) - the model function stands in -/",
+                     f"def {name} (fuel0 : Nat) (v_path : Bytes) : Option Bytes := some (Nstd.Path.{name} v_path)",
+                     f"def {name}_isTranslated : Bool := false", ""]
+            npar, s = 1, f"{name}: REFUSED ({e})"
+        else:
+            if not must:
+                lines += [f"def {name}_isTranslated : Bool := true", ""]
         # a function calls the translated ones by their generated name
         parts += [re.sub(r"\bmatch (" + "|".join(known) + r") fuel0", lambda m: f"match Nstd.Generated.PathScan.{m.group(1)} fuel0", l)
                   if known else l for l in lines]
